@@ -46,6 +46,15 @@ static llvm::cl::list<std::string> Roots("root", llvm::cl::desc("source root (re
 static llvm::cl::opt<std::string> Mode("mode", llvm::cl::init("full"), llvm::cl::cat(Cat));
 static llvm::cl::opt<std::string> OutFile("o", llvm::cl::init("-"), llvm::cl::cat(Cat));
 
+static std::string TS(clang::QualType T) {
+  if (T.isNull()) return "<null>";
+  static clang::LangOptions LO = [] { clang::LangOptions L; L.CPlusPlus = true; L.CPlusPlus17 = true; L.Bool = true; return L; }();
+  clang::PrintingPolicy PP(LO);
+  PP.SuppressTagKeyword = true;
+  PP.FullyQualifiedName = true;
+  return T.getCanonicalType().getAsString(PP);
+}
+
 static std::string Q(llvm::StringRef s) {
   std::string o;
   llvm::raw_string_ostream os(o);
@@ -71,7 +80,7 @@ struct Ctx {
     return n;
   }
   unsigned type(QualType T) {
-    std::string s = T.isNull() ? std::string("<null>") : T.getCanonicalType().getAsString();
+    std::string s = TS(T);
     auto it = TypeIdx.find(s);
     if (it != TypeIdx.end()) return it->second;
     unsigned n = Types.size();
@@ -170,14 +179,14 @@ class DeclTable {
         if (!isUnresolvedExceptionSpec(EST) && !F->isDependentContext()) nothrow = FPT->isNothrow();
       }
       os << ",\"noexcept\":" << B(nothrow);
-      os << ",\"rtype\":" << Q(F->getReturnType().getCanonicalType().getAsString());
+      os << ",\"rtype\":" << Q(TS(F->getReturnType()));
       os << ",\"params\":[";
       bool first = true;
       for (auto *PV : F->parameters()) {
         if (!first) os << ",";
         first = false;
         os << "{\"id\":" << X.id(PV) << ",\"name\":" << Q(PV->getNameAsString()) << ",\"type\":"
-           << Q(PV->getType().getCanonicalType().getAsString()) << "}";
+           << Q(TS(PV->getType())) << "}";
       }
       os << "]";
       if (auto *M = dyn_cast<CXXMethodDecl>(F)) {
@@ -227,7 +236,7 @@ class DeclTable {
           if (!first) os << ",";
           first = false;
           os << "{\"id\":" << X.id(FD) << ",\"name\":" << Q(FD->getNameAsString()) << ",\"type\":"
-             << Q(dep ? FD->getType().getAsString() : FD->getType().getCanonicalType().getAsString())
+             << Q(TS(FD->getType()))
              << ",\"mutable\":" << B(FD->isMutable()) << ",\"line\":" << X.lineOf(FD->getLocation())
              << ",\"access\":\"" << accessStr(FD->getAccess()) << "\"}";
         }
@@ -238,7 +247,7 @@ class DeclTable {
           for (auto &Bs : R->bases()) {
             if (!first) os << ",";
             first = false;
-            os << Q(Bs.getType().getCanonicalType().getAsString());
+            os << Q(TS(Bs.getType()));
           }
           os << "]";
         }
@@ -251,7 +260,7 @@ class DeclTable {
       os << "{\"id\":" << me << ",\"k\":\"field\",\"name\":" << Q(FD->getNameAsString()) << ",\"qn\":"
          << Q(qname(FD));
       locFields(os, D);
-      os << ",\"type\":" << Q(FD->getType().getCanonicalType().getAsString()) << ",\"mutable\":"
+      os << ",\"type\":" << Q(TS(FD->getType())) << ",\"mutable\":"
          << B(FD->isMutable()) << ",\"record\":" << X.id(FD->getParent()) << ",\"access\":\""
          << accessStr(FD->getAccess()) << "\"}";
       rows[me] = os.str();
@@ -262,7 +271,7 @@ class DeclTable {
          << Q(VD->getNameAsString()) << ",\"qn\":" << Q(qname(VD));
       locFields(os, D);
       QualType T = VD->getType();
-      os << ",\"type\":" << Q(T.getCanonicalType().getAsString());
+      os << ",\"type\":" << Q(TS(T));
       os << ",\"sd\":" << (int)VD->getStorageDuration();  // 0 full-expr,1 auto,2 thread,3 static,4 dynamic
       os << ",\"staticlocal\":" << B(VD->isStaticLocal());
       os << ",\"local\":" << B(VD->isLocalVarDeclOrParm());
@@ -543,7 +552,7 @@ class V : public RecursiveASTVisitor<V> {
           DT.add(I->getAnyMember());
           *OS << ",\"field\":" << X.id(I->getAnyMember()) << ",\"name\":" << Q(I->getAnyMember()->getNameAsString());
         }
-        if (I->isBaseInitializer()) *OS << ",\"base\":" << Q(QualType(I->getBaseClass(), 0).getCanonicalType().getAsString());
+        if (I->isBaseInitializer()) *OS << ",\"base\":" << Q(TS(QualType(I->getBaseClass(), 0)));
         if (I->isDelegatingInitializer()) *OS << ",\"delegating\":true";
         *OS << ",\"init\":";
         if (I->getInit())
